@@ -85,10 +85,8 @@ Proof. induction l as [|x l IH]; simpl; auto. now rewrite <- IH. Qed.
 Lemma init_plan_bounds rooted : plan_bounds (init_plan rooted) = [].
 Proof. now destruct rooted. Qed.
 
-Lemma small_false n rooted : 3 <= n -> (Nat.ltb n 2 || (Nat.ltb n 3 && rooted)) = false.
-Proof.
-  intros H. destruct (Nat.ltb_spec n 2); [lia|]. destruct (Nat.ltb_spec n 3); [lia|]. reflexivity.
-Qed.
+Lemma small_false n : 3 <= n -> Nat.ltb n 3 = false.
+Proof. intros H. destruct (Nat.ltb_spec n 3); [lia|reflexivity]. Qed.
 
 Lemma uniform_bounds_eq n rooted : 3 <= n ->
   uniform_bounds n rooted = map (unif_bound rooted) (seq 2 (n - 2)).
@@ -125,7 +123,7 @@ Proof.
   assert (L : length cs = n - 2).
   { apply in_bounds_length in Hb. now rewrite map_length, seq_length in Hb. }
   unfold uniform_tree.
-  destruct (Nat.ltb_spec n 2); [lia|]. destruct (Nat.ltb_spec n 3); [lia|]. cbn [andb].
+  destruct (Nat.ltb_spec n 3); [lia|]. cbn [andb].
   rewrite L, Nat.eqb_refl. cbn [negb].
   assert (I : inv rooted (2 + length cs) (unif_loop 2 cs (init_state rooted))).
   { apply unif_loop_inv; [lia|apply inv_init|now rewrite L]. }
@@ -134,11 +132,9 @@ Proof.
 Qed.
 
 Theorem uniform_tree_small n rooted cs ls :
-  n < 2 \/ (n < 3 /\ rooted = true) -> exists msg, uniform_tree n rooted cs ls = GErr msg.
+  n < 3 -> exists msg, uniform_tree n rooted cs ls = GErr msg.
 Proof.
-  unfold uniform_tree. intros [H|[H ->]].
-  - destruct (Nat.ltb_spec n 2); [eauto|lia].
-  - destruct (Nat.ltb_spec n 2); [eauto|]. destruct (Nat.ltb_spec n 3); [simpl; eauto|lia].
+  unfold uniform_tree. intros H. destruct (Nat.ltb_spec n 3); [|lia]. destruct rooted; simpl; eauto.
 Qed.
 
 (** ** tip.br[0] is found *)
@@ -239,7 +235,7 @@ Proof.
   assert (L : length cs = n - 2).
   { apply in_bounds_length in Hb. now rewrite seq_length in Hb. }
   unfold yule_tree.
-  destruct (Nat.ltb_spec n 2); [lia|]. destruct (Nat.ltb_spec n 3); [lia|]. cbn [andb].
+  destruct (Nat.ltb_spec n 3); [lia|]. cbn [andb].
   rewrite L, Nat.eqb_refl. cbn [negb].
   destruct (yule_loop_inv rooted cs 2 (init_state rooted)) as [st [E I]];
     [lia|apply inv_init|now rewrite L|].
@@ -248,11 +244,9 @@ Proof.
 Qed.
 
 Theorem yule_tree_small n rooted cs ls :
-  n < 2 \/ (n < 3 /\ rooted = true) -> exists msg, yule_tree n rooted cs ls = GErr msg.
+  n < 3 -> exists msg, yule_tree n rooted cs ls = GErr msg.
 Proof.
-  unfold yule_tree. intros [H|[H ->]].
-  - destruct (Nat.ltb_spec n 2); [eauto|lia].
-  - destruct (Nat.ltb_spec n 2); [eauto|]. destruct (Nat.ltb_spec n 3); [simpl; eauto|lia].
+  unfold yule_tree. intros H. destruct (Nat.ltb_spec n 3); [|lia]. destruct rooted; simpl; eauto.
 Qed.
 
 (** ** RandomCaterpillarBinaryTree *)
@@ -269,24 +263,20 @@ Theorem caterpillar_tree_ok n rooted ls :
   3 <= n -> exists t, caterpillar_tree n rooted ls = GOk t /\ good_tree rooted n t.
 Proof.
   intros Hn. unfold caterpillar_tree.
-  destruct (Nat.ltb_spec n 2); [lia|]. destruct (Nat.ltb_spec n 3); [lia|]. cbn [andb].
+  destruct (Nat.ltb_spec n 3); [lia|]. cbn [andb].
   destruct (cat_loop_inv rooted (n - 2) 2 (init_state rooted)) as [st [E I]]; [lia|apply inv_init|].
   rewrite E. replace (2 + (n - 2)) with n in I by lia.
   apply close_state_ok; [lia|exact I].
 Qed.
 
 Theorem caterpillar_tree_small n rooted ls :
-  n < 2 \/ (n < 3 /\ rooted = true) -> exists msg, caterpillar_tree n rooted ls = GErr msg.
+  n < 3 -> exists msg, caterpillar_tree n rooted ls = GErr msg.
 Proof.
-  unfold caterpillar_tree. intros [H|[H ->]].
-  - destruct (Nat.ltb_spec n 2); [eauto|lia].
-  - destruct (Nat.ltb_spec n 2); [eauto|]. destruct (Nat.ltb_spec n 3); [simpl; eauto|lia].
+  unfold caterpillar_tree. intros H. destruct (Nat.ltb_spec n 3); [|lia]. destruct rooted; simpl; eauto.
 Qed.
 
-(** ** the documented minimum of the unrooted generators is 2 tips, but 2 tips are rejected:
-    RerootFirst finds no node with 3 neighbours and its error is returned *)
-Definition err_reroot_first : string := "No nodes with 3 neighors have been found for rerooting".
-Theorem unrooted_two_tips_rejected ls :
-  uniform_tree 2 false [] ls = GErr err_reroot_first /\ yule_tree 2 false [] ls = GErr err_reroot_first /\
-  caterpillar_tree 2 false ls = GErr err_reroot_first.
+(** ** two tips unrooted: a clean rejection (the size test comes first) *)
+Theorem unrooted_two_tips_rejected cs ls :
+  uniform_tree 2 false cs ls = GErr err_lt3u /\ yule_tree 2 false cs ls = GErr err_lt3u /\
+  caterpillar_tree 2 false ls = GErr err_lt3u.
 Proof. repeat split. Qed.
